@@ -4,6 +4,7 @@ package main
 // real types/compkey codec and to the four typed keys of x/aol, and records what comes back.
 
 import (
+	"strconv"
 	"bufio"
 	"encoding/json"
 	"fmt"
@@ -137,12 +138,22 @@ func ckCase(c M) (rec M) {
 		msg := aoltypes.MsgCreateTopicRequest{TopicName: name, Description: "", OwnerAddress: owner.String()}
 		admitted := msg.ValidateBasic() == nil
 		rec["admitted"] = admitted
+		off := uint64(18446744073709551615) // the record offset of the third key: any uint64 (decimal string in the case, default: the largest)
+		if o := str(c, "off"); o != "" {
+			v, perr := strconv.ParseUint(o, 10, 64)
+			if perr != nil {
+				rec["rt"] = "err"
+				return rec
+			}
+			off = v
+		}
+		rec["off"] = strconv.FormatUint(off, 10)
 		rt := "ok"
 		// the genesis string form of the three keys that carry a topic name
 		keys := []compkey.CompositeKey{
 			&aoltypes.TopicCompositeKey{OwnerAddress: owner, TopicName: name},
 			&aoltypes.WriterCompositeKey{OwnerAddress: owner, TopicName: name, WriterAddress: owner},
-			&aoltypes.RecordCompositeKey{OwnerAddress: owner, TopicName: name, Offset: 18446744073709551615},
+			&aoltypes.RecordCompositeKey{OwnerAddress: owner, TopicName: name, Offset: off},
 		}
 		outs := []compkey.CompositeKey{&aoltypes.TopicCompositeKey{}, &aoltypes.WriterCompositeKey{}, &aoltypes.RecordCompositeKey{}}
 		for i, k := range keys {
